@@ -90,12 +90,12 @@ static void stop_helper()
 {
     if (g_helper > 0) { kill(g_helper, SIGKILL); int st; waitpid(g_helper, &st, 0); g_helper = -1; }
 }
-// collect the SIGCONTs the parent sent for the stops reported so far (each is awaited up to 2 s)
+// collect the SIGCONTs the parent sent for the stops reported so far (each is awaited up to 10 s)
 static void collect_conts()
 {
     while (g_pendingStops > 0) {
         struct pollfd p; p.fd = g_contpipe[0]; p.events = POLLIN;
-        if (poll(&p, 1, 2000) <= 0) break;
+        if (poll(&p, 1, 10000) <= 0) break;      /* generous: only a SIGCONT that was never sent costs this time */
         char c; if (read(g_contpipe[0], &c, 1) == 1) g_conts++;
         g_pendingStops--;
     }
